@@ -549,8 +549,38 @@ def run(prog: Program, L: Ledger) -> None:
     from . import c14
 
     check_reference_energy(prog, L)
+    check_default_tables(prog, L)
     L.rule("H", "context.last_kinetic_energy, read by the Hamiltonian criterion as the initial kinetic energy, is on every abstract path that of the momenta present when the integrator starts")
     c14.check_kinetic_reference(prog, L, "H")
+
+
+def check_default_tables(prog: Program, L: Ledger) -> None:
+    """Rule T: the criterion a driver picks BY DEFAULT for a move is the textbook rule for that kind of trial."""
+    from ..scenarios import compatible, default_criteria_for, elementary_moves, monte_carlo_drivers
+
+    L.rule("T", "default criteria tables: a trial that draws momenta and integrates a trajectory (Hamiltonian move) is judged by default by a criterion whose exponent contains the kinetic-energy difference, and no other trial is (the table lookup follows ** spreads and the move's MRO)")
+    ham = prog.cls("HamiltonianDisplacementMove")
+
+    def reads_kinetic(ci) -> bool:
+        f = prog.lookup_method(ci, "evaluate")
+        return f is not None and any(isinstance(n, ast.Attribute) and n.attr in ("last_kinetic_energy", "get_kinetic_energy") for n in ast.walk(f.node))
+
+    n = 0
+    for d in monte_carlo_drivers(prog):
+        for mv in elementary_moves(prog):
+            if not compatible(prog, d, mv):
+                continue
+            crit = default_criteria_for(prog, d, mv)
+            if crit is None:
+                continue
+            n += 1
+            needs = ham in prog.mro(mv)
+            has = reads_kinetic(crit)
+            L.check(needs == has, "T", f"{d.name}.default_criteria[{mv.name}]", d.where,
+                    f"{d.name} judges {mv.name} by default with {crit.name}, whose exponent {'contains' if has else 'does not contain'} the kinetic-energy difference while the trial {'does' if needs else 'does not'} draw momenta and integrate",
+                    ("hybrid Monte Carlo accepted on ΔE_pot alone: integration error in the total energy is not corrected, momenta bias the ensemble" if needs else "a positional trial judged with a kinetic term that was never refreshed"),
+                    crit.name)
+    L.floor("driver × move default criteria resolved", n, 6)
 
 
 # ---------------------------------------------------------------------------------------------- rule E (abstract heap)
